@@ -54,6 +54,11 @@ scen("C03", "hostile", "update-ref-blob-and-hostile-branch-names", INIT + [w("a"
 api("C19", "api-c19", "config-line-without-equals", {"loader": "config", "data": base64.b64encode(b"[user]\n\tname\n").decode()}, "Config.load indexed past the split result")
 api("C19", "api-c19", "config-key-before-section", {"loader": "config", "data": base64.b64encode(b"\tname = x\n").decode()}, "assignment to nil map")
 api("C19", "api-c19", "global-config-line-without-equals", {"loader": "globalconfig", "data": base64.b64encode(b"[a]\nb\n").decode()}, "Config.load indexed past the split result")
+scen("C17", "ignore", "backslash-name-is-not-a-goit-path", INIT + [w("a", "1"), w(".goit\\HEAD", "evil"), w("d\\e", "2"), g("add", "."), g("status"), g("commit", "-m", "c"),
+     w(".goit\\HEAD", "evil2"), g("restore", ".goit\\HEAD"), g("status")],
+     "a file named '.goit\\HEAD' was staged as .goit/HEAD; restore then overwrote Goit's HEAD file")
+scen("C04", "stage", "backslash-name-staged-verbatim", INIT + [w("a\\b", "1"), w("d/x\\", "2"), g("add", "a\\b", "d"), g("status"), g("rm", "a\\b")],
+     "a\\b was staged as a/b")
 print("pins written")
 
 # ---- C15 / C16 pins: points are selected by operation class of the fault-free run (at_op)
